@@ -10,4 +10,5 @@ mkdir -p bin .cache evidence replays
 ./bin/check build --race
 # machinery self-test: the repository's own tests must pass on the instrumented copy
 ./bin/check selftest-preservation
+./bin/check selftest-race
 echo "setup: ok"
